@@ -554,15 +554,81 @@ def replayCase (recs : List OpRec) : Except String Unit := do
     | .error e => throw s!"op {i} ({(" ".intercalate rec.ws).take 60}): {e}"
   return ()
 
+/-! ## several run services (cases `reset kind=m`)
+
+Every `svc` op creates a `runservice.NewRunService("")` (anonymous, as
+`actorex` does) and starts it; closures and waterfall chains are posted to one
+named service.  Deterministic: each service has its own scheduler and its own
+loop goroutine (`Model/ScheMgr.lean`), the poster is the test goroutine, every
+op runs to quiescence.  Observation `exec=<svc>.<seq>@<goroutine>,… ret=<ok>:<nil>`;
+goroutine label `s<j>` = loop goroutine of service `j`. -/
+
+structure MSvc where
+  id : Nat
+  alive : Bool := true
+  next : Nat := 0
+
+structure MSt where
+  svcs : List MSvc := []
+
+def MSt.set (s : MSt) (v : MSvc) : MSt := { svcs := s.svcs.map fun u => if u.id = v.id then v else u }
+
+def commaJoin (l : List String) : String := if l.isEmpty then "-" else ",".intercalate l
+
+def stepM (s : MSt) (ws : List String) : MSt × String :=
+  match ws.head? with
+  | some "svc" =>
+    match kvNat ws "id" with
+    | some id => if s.svcs.any (·.id = id) then (s, "bad-op") else ({ svcs := s.svcs ++ [{ id := id }] }, "ok")
+    | none => (s, "bad-op")
+  | some "mpost" =>
+    match kvNat ws "svc", kvNat ws "n" with
+    | some k, some n =>
+      match s.svcs.find? (·.id = k) with
+      | none => (s, "bad-op")
+      | some v =>
+        if v.alive then
+          let ex := (List.range n).map fun i => s!"{k}.{v.next + i}@s{k}"
+          (s.set { v with next := v.next + n }, s!"exec={commaJoin ex} ret={n}:0")
+        else (s.set { v with next := v.next + n }, s!"exec=- ret=0:{n}")
+    | _, _ => (s, "bad-op")
+  | some "mchain" =>
+    match kvNat ws "svc", kvNat ws "n" with
+    | some k, some n =>
+      match s.svcs.find? (·.id = k) with
+      | none => (s, "bad-op")
+      | some v =>
+        if v.alive then
+          -- n synchronous tasks, task i appends i; the model is the chain model run to completion
+          let ev := (List.range n).map (fun i => s!"t{i}{showNats (List.range i)}@s{k}") ++ [s!"f0{showNats (List.range n)}@s{k}"]
+          (s, " ".intercalate ev)
+        else (s, "-")
+    | _, _ => (s, "bad-op")
+  | some "mstop" =>
+    match kvNat ws "svc" with
+    | some k =>
+      match s.svcs.find? (·.id = k) with
+      | some v => if v.alive then (s.set { v with alive := false }, "ok") else (s, "bad-op")
+      | none => (s, "bad-op")
+    | none => (s, "bad-op")
+  | _ => (s, "bad-op")
+
 /-! ## driver state and the three modes -/
 
-inductive CaseKind | none | sche | wf
+inductive CaseKind | none | sche | wf | multi
   deriving DecidableEq
+
+/-- a line is `op<TAB>obs`; only the first tab separates (a crash report may contain tabs) -/
+def splitLine (line : String) : Option (String × String) :=
+  match line.splitOn "\t" with
+  | [] | [_] => none
+  | op :: rest => some (op, " ".intercalate rest)
 
 structure St where
   kind : CaseKind := .none
   w : WSt := {}
   a : AccS := {}
+  m : MSt := {}
   recs : List OpRec := []   -- scheduler case so far, newest first (replayed through the model at `end`)
   dead : Bool := false   -- after a rejection the rest of the case is not judged again
 
@@ -572,11 +638,12 @@ def resetSt (ws : List String) : St :=
   match kv ws "kind" with
   | some "w" => { kind := .wf }
   | some "s" => { kind := .sche }
+  | some "m" => { kind := .multi }
   | _ => {}
 
 def stepAccept (s : St) (line : String) : St × String :=
-  match line.splitOn "\t" with
-  | [op, obs] =>
+  match splitLine line with
+  | some (op, obs) =>
     let ws := words op
     if isReset ws then
       let s' := resetSt ws
@@ -584,6 +651,7 @@ def stepAccept (s : St) (line : String) : St × String :=
       else if kvNat (words obs) "cap" == some Gen.C15.queueSize && (words obs).head? == some "ok" then (s', "ok")
       else (s', s!"REJECT channel capacity differs from QueueSize={Gen.C15.queueSize}: {obs}")
     else if s.dead then (s, "ok skipped")
+    else if ws.head? == some "next" then (s, if obs == "ok" then "ok" else "REJECT bad announcement")
     else if ws.head? == some "end" then
       match s.kind with
       | .sche =>
@@ -603,15 +671,20 @@ def stepAccept (s : St) (line : String) : St × String :=
           match acceptS s.a ws o with
           | .ok a' => ({ s with a := a', recs := ⟨ws, o⟩ :: s.recs }, "ok")
           | .error e => ({ s with dead := true }, "REJECT " ++ e)
+      | .multi =>
+        let (m', o) := stepM s.m ws
+        if o == obs then ({ s with m := m' }, "ok")
+        else ({ s with m := m', dead := true }, "REJECT model: " ++ o)
       | .none => (s, "REJECT op before reset")
-  | _ => (s, "REJECT bad-line")
+  | none => (s, "REJECT bad-line")
 
 def stepModel (s : St) (line : String) : St × String :=
   let ws := words line
   if isReset ws then (resetSt ws, s!"ok cap={Gen.C15.queueSize}")
-  else if ws.head? == some "end" then (s, "ok")
+  else if ws.head? == some "end" || ws.head? == some "next" then (s, "ok")
   else match s.kind with
     | .wf => let (w', m) := stepW s.w ws; ({ s with w := w' }, m)
+    | .multi => let (m', o) := stepM s.m ws; ({ s with m := m' }, o)
     | _ => (s, "?")
 
 /-! ## the property predicate on implementation observations (`spec` mode) -/
@@ -631,6 +704,12 @@ structure SpChain where
   calls : List Nat := []            -- completions made by each invoked task on a running scheduler
   finals : Nat := 0
 
+/-- spec state of one run service in a `kind=m` case -/
+structure SpSvc where
+  id : Nat
+  alive : Bool := true
+  next : Nat := 0
+
 structure SpecS where
   kind : CaseKind := .none
   -- scheduler
@@ -644,6 +723,8 @@ structure SpecS where
   chains : List SpChain := []
   pend : List Pend := []
   parked : Bool := false
+  svcs : List SpSvc := []
+  panicPosted : Bool := false   -- a panicking closure / task has been handed to the code in this case
   dead : Bool := false
 
 def SpecS.setPoster (s : SpecS) (q : SpPoster) : SpecS :=
@@ -832,28 +913,120 @@ def specS (s : SpecS) (ws : List String) (o : SObs) : Except String SpecS := do
   if s.stopped && s.started && !s.held then s := { s with gone := true }
   return s
 
+def parseMExec (v : String) : Option (List (Nat × Nat × String)) :=
+  if v == "-" then some [] else
+  (splitNonEmpty v ",").mapM fun e =>
+    match e.splitOn "@" with
+    | [a, g] => match a.splitOn "." with
+      | [x, y] => match natOf x, natOf y with
+        | some p, some k => some (p, k, g)
+        | _, _ => none
+      | _ => none
+    | _ => none
+
+/-- closures posted to service X run only on X's loop goroutine, in post order, each exactly once;
+a running service accepts every post; a service created after another was stopped works -/
+def specM (svcs : List SpSvc) (ws : List String) (obs : String) : Except String (List SpSvc) := do
+  if obs == "bad-op" then return svcs
+  if obs == "panic" then
+    throw (viol "service-op-crashed" s!"{" ".intercalate ws} panicked in the caller")
+  let setS (v : SpSvc) : List SpSvc := svcs.map fun u => if u.id = v.id then v else u
+  match ws.head? with
+  | some "svc" =>
+    match kvNat ws "id" with
+    | some id => return svcs ++ [{ id := id }]
+    | none => throw "bad-op"
+  | some "mstop" =>
+    match kvNat ws "svc" with
+    | some k => return svcs.map fun u => if u.id = k then { u with alive := false } else u
+    | none => throw "bad-op"
+  | some "mpost" =>
+    match kvNat ws "svc", kvNat ws "n", svcs.find? (·.id = (kvNat ws "svc").getD 0) with
+    | some k, some n, some v =>
+      let ows := words obs
+      match (kv ows "exec").bind parseMExec, (kv ows "ret").map (fun r => (r.splitOn ":").map natOf) with
+      | some ex, some [some ok, some nl] =>
+        let mut nxt := v.next
+        for (p, q, g) in ex do
+          if p ≠ k then throw (viol "unknown-closure" s!"closure {p}.{q} reported while posting to service {k}")
+          if g != s!"s{k}" then
+            throw (viol "off-scheduler-goroutine" s!"closure {k}.{q} posted to service {k} ran on goroutine {g}, not on that service's loop")
+          if q < nxt then throw (viol "closure-executed-twice" s!"closure {k}.{q} executed again")
+          if q > nxt then throw (viol "poster-order-broken" s!"service {k}: closure {q} executed before closure {nxt}")
+          nxt := nxt + 1
+        if v.alive then
+          if nl ≠ 0 || ok ≠ n then
+            throw (viol "running-service-refused-post" s!"service {k} is running (never stopped) but Post returned nil {nl} time(s) of {n}")
+          if nxt ≠ v.next + n then
+            throw (viol "closure-lost" s!"service {k}: {n} closures accepted, {nxt - v.next} executed")
+        else if ok ≠ 0 then
+          throw (viol "post-after-stop-accepted" s!"service {k} is stopped but Post returned a task")
+        return setS { v with next := v.next + n }
+      | _, _ => throw (viol "unparsable-observation" obs)
+    | _, _, _ => throw "bad-op"
+  | some "mchain" =>
+    match kvNat ws "svc", kvNat ws "n", svcs.find? (·.id = (kvNat ws "svc").getD 0) with
+    | some k, some n, some v =>
+      if !v.alive then return svcs
+      let evs := words obs
+      let want := (List.range n).map (fun i => s!"t{i}{showNats (List.range i)}") ++ [s!"f0{showNats (List.range n)}"]
+      let got := if obs == "-" then [] else evs
+      for e in got do
+        match e.splitOn "@" with
+        | [_, g] =>
+          if g != s!"s{k}" then
+            throw (viol "off-scheduler-goroutine" s!"chain on service {k}: {e} ran on goroutine {g}, not on that service's loop")
+        | _ => throw (viol "unparsable-observation" obs)
+      let names := got.map fun e => (e.splitOn "@").headD ""
+      if names ≠ want then
+        if names.length < want.length && names == want.take names.length then
+          throw (viol "final-missing" s!"chain on running service {k} stopped after {names.length} of {want.length} steps")
+        else throw (viol "task-out-of-order" s!"chain on service {k}: {obs}")
+      return svcs
+    | _, _, _ => throw "bad-op"
+  | _ => throw "bad-op"
+
+/-- does the op hand a panicking closure or task to the code under test? -/
+def postsPanic (ws : List String) : Bool :=
+  match ws.head? with
+  | some "burst" => match parseBurst ws with
+    | some cmds => cmds.any fun (_, ks) => ks.any (· = .panics)
+    | none => false
+  | some "chain" => match parseTasks ws with
+    | some ts => ts.any fun t => t.mode = .panicBefore || t.mode = .panicAfter
+    | none => false
+  | some "mpost" => (kv ws "x").isSome
+  | _ => false
+
 def stepSpec (s : SpecS) (line : String) : SpecS × String :=
-  match line.splitOn "\t" with
-  | [op, obs] =>
+  match splitLine line with
+  | some (op, obs) =>
     let ws := words op
     if op.startsWith "<harness-exit" then
-      (s, viol "process-crashed" (op ++ " " ++ obs))
+      if s.panicPosted then
+        (s, viol "closure-panic-kills-service" ("a panicking closure was posted in this case and the consumer's process died: " ++ (obs.take 300).toString))
+      else (s, viol "process-crashed" (op ++ " " ++ (obs.take 300).toString))
     else if isReset ws then
       ({ kind := (resetSt ws).kind }, "ok")
+    else if ws.head? == some "next" then
+      -- the harness announces an op that hands a panicking closure / task to the code (it may not survive it)
+      ((if postsPanic (ws.drop 1) then { s with panicPosted := true } else s), "ok")
     else if s.dead || ws.head? == some "end" then (s, "ok")
     else if (obs.splitOn "<no-observation").length > 1 then
       ({ s with dead := true }, viol "process-crashed" op)
     else
+      let s := if postsPanic ws then { s with panicPosted := true } else s
       let r : Except String SpecS := match s.kind with
         | .wf => specW s ws obs
         | .sche => match parseSObs obs with
           | some o => specS s ws o
           | none => .error (viol "unparsable-observation" obs)
+        | .multi => (specM s.svcs ws obs).map fun v => { s with svcs := v }
         | .none => .error "bad-op"
       match r with
       | .ok s' => (s', "ok")
       | .error e => ({ s with dead := true }, e)
-  | _ => (s, "bad-line")
+  | none => (s, "bad-line")
 
 end Cell2v.Driver.C15
 
